@@ -30,7 +30,7 @@ func caseGen() *rapid.Generator[Case] {
 		c := Case{Creator: rapid.SampledFrom([]string{"core", "core", "csv", "texttable", "markdown"}).Draw(t, "creator")}
 		n := rapid.IntRange(2, max).Draw(t, "n")
 		for i := 0; i < n; i++ {
-			k := rapid.SampledFrom([]string{"op", "op", "op", "op", "reg", "reg", "reg", "reg", "render", "render", "seedcell", "dense", "hdrcapture"}).Draw(t, "step")
+			k := rapid.SampledFrom([]string{"op", "op", "op", "op", "reg", "reg", "reg", "reg", "render", "render", "seedcell", "dense", "hdrcapture", "update"}).Draw(t, "step")
 			st := Step{K: k}
 			switch k {
 			case "hdrcapture":
@@ -66,6 +66,9 @@ func caseGen() *rapid.Generator[Case] {
 					op.Ref = rapid.IntRange(0, 3).Draw(t, "ref")
 				}
 				st.Op = &op
+			case "update":
+				st.Ref = rapid.IntRange(0, 7).Draw(t, "ref")
+				st.Col = rapid.IntRange(0, 3).Draw(t, "col")
 			case "dense":
 				st.When = rapid.IntRange(0, 3).Draw(t, "when")
 				st.N = rapid.IntRange(1, 11).Draw(t, "n")
@@ -84,6 +87,10 @@ func caseGen() *rapid.Generator[Case] {
 				st.Target = rapid.IntRange(0, 2).Draw(t, "target")
 				st.Via2 = rapid.IntRange(0, 4).Draw(t, "via2") == 0
 				st.Err = rapid.IntRange(0, 3).Draw(t, "err") == 0
+				st.Lazy = gen.Rarely(t, "lazy", 10)
+				if gen.Rarely(t, "grower", 10) {
+					st.Owner, st.When, st.Target, st.Grow = "table", 0, 2, true
+				}
 				if rapid.IntRange(0, 5).Draw(t, "many") == 0 {
 					st.N = rapid.IntRange(2, 11).Draw(t, "n") // slices grow in steps: 3, 5, 9 entries leave spare capacity
 				}
